@@ -85,9 +85,14 @@ EXTS = ['.json', '.gz', '.GZ', '.gzip']
 # again (their stored values are outdated when the model is persisted); 'reevaluated': ... and evaluated again.
 POINTS = ['uncompiled', 'compiled', 'evaluated', 'overwritten', 'reevaluated']
 
-SHEETS = ['Sheet1', 'Data', 'My Sheet', 'Übersicht', 'S 2', "O'Neil"]
+# texts that are NOT in Unicode normal form C / have compatibility equivalents: a restore must not "repair" them
+NON_NFC = ['cafe\u0301', 'n\u0303and\u0303u', '\u2126 ohm', '\u212b ngstrom', '\u212a elvin', '\u1112\u1161\u11ab jamo',
+           '\u0301 lone mark', 'a\u00a0b nbsp', '\U0001F468\u200d\U0001F469\u200d\U0001F467 zwj', '\U0001D11E astral',
+           '\ufb01 ligature', 'e\u0323\u0302 two marks', '\u00c5 vs A\u030a']
+SHEETS = ['Sheet1', 'Data', 'My Sheet', 'Übersicht', 'S 2', "O'Neil", 'Cafe\u0301', '\u2126hm']
 TEXTS = ['abc', 'héllo wörld', '日本語テキスト', 'it\'s', 'a"b', ' lead', 'TRUE', '1e5', '12', 'x' * 300, 'a\tb',
          'line\nbreak', '\U0001F600 smile', '#N/A', 'py/object', 'json://k', '\\', 'null', '{"a": 1}', "'", '<&>']
+TEXTS = TEXTS + NON_NFC
 INTS = [0, 1, -1, 2, 7, 42, -13, 255, 10 ** 9, 2 ** 53, 2 ** 53 + 1, -(2 ** 63), 2 ** 64, 10 ** 30, -(10 ** 40)]
 FLOATS = [0.0, -0.0, 0.5, -2.5, 0.1, 1 / 3, 1e308, 1.7976931348623157e308, 5e-324, 2.2250738585072014e-308,
           -1e-300, 1e-7, 123456789.123456789, 1e15 + 0.5, 3.0, 1e22, float('inf'), float('-inf'), float('nan')]
@@ -183,7 +188,7 @@ def gen_spec(rng, idx, big=False):
         s, c = a.split('!')
         import re
         m = re.match(r'([A-Z]+)(\d+)', c)
-        nm = rng.choice(['rate', 'Total_1', 'näme', 'x.y', '_u', 'tax']) + str(len(names))
+        nm = rng.choice(['rate', 'Total_1', 'näme', 'x.y', '_u', 'tax', 'nom\u0303', '\u212bn']) + str(len(names))
         names[nm] = f'{quote_sheet(s)}!${m.group(1)}${m.group(2)}'
     # defined names for ranges
     range_names = []
@@ -191,7 +196,7 @@ def gen_spec(rng, idx, big=False):
         s = rng.choice(sheets)
         c0, r0 = rng.randrange(3), rng.randint(1, 4)
         c1, r1 = c0 + rng.randrange(2), r0 + rng.randrange(3)
-        nm = rng.choice(['rng', 'Block', 'täble', 'data_']) + str(len(names))
+        nm = rng.choice(['rng', 'Block', 'täble', 'data_', 'ta\u0308ble']) + str(len(names))
         names[nm] = f'{quote_sheet(s)}!${col_letter(c0)}${r0}:${col_letter(c1)}${r1}'
         range_names.append((nm, f'{s}!{col_letter(c0)}{r0}:{col_letter(c1)}{r1}'))
 
@@ -229,7 +234,7 @@ def gen_spec(rng, idx, big=False):
         elif k == 'cmp' and anyc:
             f = f'={ref(rng.choice(anyc), sh)}{rng.choice(["<", ">", "=", "<>", ">="])}{rng.choice(["1", "0", chr(34) + "b" + chr(34)])}'
         elif k == 'text' and anyc:
-            f = f'={ref(rng.choice(anyc), sh)}&"{rng.choice(["x", "ü", " ", "", "日本"])}"'
+            f = f'={ref(rng.choice(anyc), sh)}&"{rng.choice(["x", "ü", " ", "", "日本"] + NON_NFC[:9])}"'
         elif k == 'err':
             f = rng.choice(['=1/0', '=SQRT(-1)', '=NA()', '=LEFT("a",-1)', '=1+"a"', '=#REF!', '=#N/A', 
                             '=' + ref(rng.choice(num), sh) + '/0' if num else '=2/0'])
@@ -243,7 +248,8 @@ def gen_spec(rng, idx, big=False):
             f = f'={ref(rng.choice(anyc), sh)}'
         elif k == 'const':
             f = rng.choice(['=TRUE', '=FALSE', '=1', '=0.1+0.2', '="tëxt"', '=""', '=-0', '=1E308*10', '=2^0.5', '=1E-320',
-                            '=PI()', '=-(1E308*10)', '=1=1', '=10^30', '=5', '="a""b"'])
+                            '=PI()', '=-(1E308*10)', '=1=1', '=10^30', '=5', '="a""b"', '="cafe\u0301"', '=LEN("cafe\u0301")',
+                            '="\u212b"&"\u2126"', '="\u1112\u1161\u11ab"'])
         elif k == 'name' and any(':' not in v for v in names.values()):
             nm = rng.choice([n for n, v in names.items() if ':' not in v])
             f = rng.choice([f'={nm}', f'={nm}&"!"', f'=IF(TRUE,{nm},0)'])
